@@ -118,6 +118,9 @@ func (c asyncCfg) name() string {
 	if c.refLevel != "" {
 		s += "/ref=" + c.refLevel
 	}
+	if c.stopRace && len(c.producers) > 0 && !c.stopTwice {
+		s += "/stop-races-drain"
+	}
 	return s
 }
 
@@ -437,6 +440,14 @@ func init() {
 			reg(prop, asyncCfg{policy: pol, prefill: 98, gate: "tokens5", layout: true, refLevel: "INFO", producers: []string{"EE", "WE"}}, "qt", 2, 3)
 			reg(prop, asyncCfg{policy: pol, prefill: 0, refLevel: "INFO", nAppender: 2, producers: []string{"EE", "EW"}}, "qt", 2, 3)
 		}
+	}
+	// C04 with Stop racing the drain (the statement is about the moment Stop returns, whatever is still
+	// queued when it is called): backlog of 0 / 2 / 50 / 99 items + one producer, free and slow worker
+	for _, pol := range pols {
+		for _, k := range []int{0, 2, 50, 99} {
+			reg("C04", asyncCfg{policy: pol, prefill: k, stopRace: true, producers: []string{"EW"}}, "qt", 2, 3)
+		}
+		reg("C04", asyncCfg{policy: pol, prefill: 3, gate: "helper", stopRace: true, producers: []string{"WE"}}, "qt", 2, 3)
 	}
 	// C05(a): Stop at every occupancy x policy x worker state
 	for _, pol := range pols {
